@@ -434,7 +434,7 @@ def joinPath : List Name → Name
 
 /-- `gen_html` returns before counting when `rel_path` is not relative or the source cannot be
 opened -/
-def FileIn.shown (r : FileIn) : Bool := r.relIsRel
+def FileIn.shown (r : FileIn) : Bool := r.relIsRel && r.openable
 
 def htmlGlobal (rs : List FileIn) : HGlobal :=
   rs.foldl (fun g r =>
